@@ -59,7 +59,8 @@ def gen_dataset(r):
         cur = p
     lo = min([v for row in rows for v in row], default=0)
     dtype = r.choice(DTYPES) if (lo >= 0 and r.random() < 0.6) else r.choice(['int64', 'int32', 'int16', 'float64'])
-    return {'op': 'dataset', 'cols': cols, 'rows': rows, 'dom': dom, 'weights': weights, 'projs': projs, 'dtype': dtype}
+    return {'op': 'dataset', 'cols': cols, 'rows': rows, 'dom': dom, 'weights': weights, 'projs': projs, 'dtype': dtype,
+            'vectorise_first': r.random() < 0.5}
 
 
 def impl_dataset(q):
@@ -76,6 +77,8 @@ def impl_dataset(q):
         w = None if q['weights'] is None else np.array(q['weights'], dtype=float)
         D = Dataset(df, dom, w)
         for p in q['projs']:
+            if q.get('vectorise_first'):
+                D.datavector()          # a history on one object: the parent is vectorised before it is projected
             D = D.project(p)
         vec = D.datavector()
         return ('ok', [list(x) for x in zip(D.domain.attrs, D.domain.shape)], int(D.records), [float(v) for v in vec])
@@ -213,6 +216,10 @@ def gen_domain(r):
     elif fn in ('marginalize', 'invert', 'canonical'):
         pool = names + ['y', 'z']
         q['attrs'] = r.sample(pool, r.randint(0, len(pool)))
+        if q['attrs'] and r.random() < 0.3:
+            # an argument that names an attribute more than once (e.g. the concatenation Ci + Cj of two overlapping cliques)
+            q['attrs'] = q['attrs'] + r.sample(q['attrs'], r.randint(1, len(q['attrs'])))
+            r.shuffle(q['attrs'])
     elif fn in ('merge', 'contains'):
         k2 = r.randint(0, 4)
         n2 = r.sample(['a', 'b', 'c', 'd', 'e', 'f', 'g'], k2)
